@@ -400,6 +400,29 @@ def env_task(_):
                                 p.violation(f"C12:env:{name}:exception:{type(e).__name__}", case, f"{name} after {hist[:k + 1]}: {e!r}")
                                 ok = False
                                 break
+                            # every way of giving only one of the two arguments: the other one comes from the process group
+                            try:
+                                for W2 in (2, 3):
+                                    half = build(world_size=W2)
+                                    ref2 = build(rank=rank if rank < W2 else 0, world_size=W2)
+                                    if rank < W2 and (list(half), len(half)) != (list(ref2), len(ref2)):
+                                        p.violation(f"C12:env:{name}:explicit_world_size_without_rank_not_honoured", case,
+                                                    f"{name}(world_size={W2}) after {hist[:k + 1]} (process group: rank {rank} of {W}): "
+                                                    f"rank/world_size {getattr(half, 'rank', None)}/{getattr(half, 'world_size', None)}, "
+                                                    f"{len(half)} entries; {name}(rank={rank}, world_size={W2}) has {len(ref2)}")
+                                        ok = False
+                                        break
+                                if rank > 0:
+                                    half = build(rank=rank)
+                                    if (list(half), len(half)) != exp:
+                                        p.violation(f"C12:env:{name}:explicit_rank_without_world_size_not_honoured", case,
+                                                    f"{name}(rank={rank}) after {hist[:k + 1]}: {list(half)} vs {exp}")
+                                        ok = False
+                            except Exception as e:
+                                p.violation(f"C12:env:{name}:exception:{type(e).__name__}", case, f"{name} with one explicit argument: {e!r}")
+                                ok = False
+                            if not ok:
+                                break
                             if (getattr(s, "rank", rank), getattr(s, "world_size", W)) != (rank, W) or got != exp:
                                 p.violation(f"C12:env:{name}:default_rank_or_world_size_not_from_the_current_process_group", case,
                                             f"{name} built with defaults after {hist[:k + 1]}: rank/world_size "
